@@ -142,7 +142,7 @@ func (d *c03Dir) lightNodeHistory() {
 		}
 		return out
 	}
-	// one step; kind sale | lgrant | lic | reg | auth | legacy
+	// one step; kind sale | lgrant | lic | reg | auth | legacy | reimport
 	step := func(kind string, S, Cr c03Principal, g bool, arg c03Principal) {
 		if rng.Intn(3) == 0 {
 			// time passes
@@ -187,6 +187,15 @@ func (d *c03Dir) lightNodeHistory() {
 			ok = fa.GrantFee(F.acc, arg.acc).OK()
 			if !ok {
 				d.t.Fatalf("lnh: legacy grant refused")
+			}
+		case "reimport":
+			// the chain is exported and started again from the export (paloma module: licences, client
+			// records, feegranter, funders): no transaction of anybody — the monitor below accepts no
+			// change of any record or licence at all
+			err := w.God(func(ctx sdk.Context) error { return fa.ReimportModuleCtx(ctx, "paloma", "paloma-store") })
+			ok = err == nil
+			if !ok {
+				r.Hit("light-node-export-import-failed", fmt.Sprintf("genesis export / import of the paloma module failed: %.300v", err), line())
 			}
 		default:
 			var msg sdk.Msg
@@ -352,11 +361,19 @@ func (d *c03Dir) lightNodeHistory() {
 		S := strangers[rng.Intn(len(strangers))]
 		step("legacy", S, S, false, none)
 	}
+	if rng.Intn(2) == 0 {
+		step("reimport", none, none, false, none)
+	}
 	extra := 2 + rng.Intn(4)
 	for i := 0; i < extra; i++ {
 		haveAcc := withAccount(everybody)
 		S := haveAcc[rng.Intn(len(haveAcc))]
 		L := locals[rng.Intn(len(locals))]
+		switch x := rng.Intn(100); {
+		case x < 8:
+			step("reimport", none, none, false, none)
+			continue
+		}
 		switch x := rng.Intn(100); {
 		case x < 25:
 			step("legacy", S, S, false, none)
